@@ -1,2 +1,496 @@
+import NeatviVerif.Lemmas.C02Ref
+import NeatviVerif.Lemmas.C02Ex
+/-!
+# C02  The dirty flag never reports clean while text and file differ
+
+Part A (this section): the line-buffer level.  C04's history language is extended with the calls
+that concern saving (`lbuf_modified` alone, `lbuf_saved(lb, 0)`, `lbuf_saved(lb, 1)`,
+`lbuf_unsaved`).  For *every* such history (unbounded; by invariant) the model never traps and the
+flag `lbuf_modified` reports is exactly the reference's: clean iff the zipper of texts stands at the
+position marked at the last whole write (and that position has not been cut off by a later edit
+below it, and no partial write happened since).  In particular clean implies text = file.
+
+Part B (namespace `Ex`, below): the guards of `:q`, `:e`, `:b` and what `:w` does to the flag.
+-/
 namespace Neatvi.Props.C02
+open Neatvi Neatvi.Lbuf Neatvi.Spec Neatvi.Lemmas.Hist Neatvi.Props.C04 Neatvi.Lemmas.C02
+
+export Neatvi.Lemmas.C02 (SOp sstep diskStep srunD SGoodOp SGood Ref rstep rrun AllLog isSaving)
+
+/-- the model run of a history (`none` = trap) -/
+def srun (ops : List SOp) (lb : Lb) : Option Lb := (srunD ops (lb, some lb.lines)).map (·.1)
+
+/-- ghost: the text at the most recent whole write (`saved` / `savedClear`), initially the text `t0`
+    the buffer was loaded with; `none` after a partial write to the buffer's own file -/
+def disk (ops : List SOp) (t0 : Text) : Option Text := (srunD ops (Lbuf.make, some t0)).bind (·.2)
+
+/-! ### the simulation, from the empty buffer -/
+
+theorem reached (ops : List SOp) (hg : SGood ops) :
+    ∃ lb d, srunD ops (Lbuf.make, some []) = some (lb, d) ∧ SInv lb (rrun ops {}) d :=
+  srunD_inv ops Lbuf.make {} (some []) sinv_make hg
+
+/-- the model never traps -/
+theorem no_trap (ops : List SOp) (hg : SGood ops) : ∃ lb, srun ops Lbuf.make = some lb := by
+  obtain ⟨lb, d, h, _⟩ := reached ops hg
+  have h' : srunD ops (Lbuf.make, some Lbuf.make.lines) = some (lb, d) := h
+  exact ⟨lb, by simp only [srun, h', Option.map_some]⟩
+
+theorem reached_of_srun (ops : List SOp) (hg : SGood ops) (lb : Lb) (hr : srun ops Lbuf.make = some lb) :
+    ∃ d, SInv lb (rrun ops {}) d ∧ disk ops [] = d := by
+  obtain ⟨lb', d, h, hi⟩ := reached ops hg
+  have h' : srunD ops (Lbuf.make, some Lbuf.make.lines) = some (lb', d) := h
+  simp only [srun, h', Option.map_some, Option.some.injEq] at hr
+  subst hr
+  exact ⟨d, hi, by simp [disk, h]⟩
+
+/-- the model's text is the zipper's present -/
+theorem refines_zipper (ops : List SOp) (hg : SGood ops) (lb : Lb) (hr : srun ops Lbuf.make = some lb) :
+    lb.lines = (rrun ops {}).z.present := by
+  obtain ⟨d, hi, _⟩ := reached_of_srun ops hg lb hr
+  exact hi.lines
+
+/-! ### 1. the flag never reports clean while text and file differ -/
+
+/-- **clean is sound**: if `lbuf_modified` reports clean, the buffer's text is the text of the most
+    recent whole write (and no partial write happened since) -/
+theorem clean_sound (ops : List SOp) (hg : SGood ops) (lb : Lb) (hr : srun ops Lbuf.make = some lb)
+    (hc : (modified lb).1 = false) : disk ops [] = some lb.lines := by
+  obtain ⟨d, hi, hd⟩ := reached_of_srun ops hg lb hr
+  rw [hd]; exact hi.clean_text hc
+
+/-- contrapositive: text and file differ ⇒ dirty -/
+theorem dirty_if_differs (ops : List SOp) (hg : SGood ops) (lb : Lb) (hr : srun ops Lbuf.make = some lb)
+    (hne : disk ops [] ≠ some lb.lines) : (modified lb).1 = true := by
+  cases hm : (modified lb).1 with
+  | true => rfl
+  | false => exact absurd (clean_sound ops hg lb hr hm) hne
+
+/-- **the flag, characterised**: clean iff the zipper stands at the marked position -/
+theorem dirty_iff_position (ops : List SOp) (hg : SGood ops) (lb : Lb) (hr : srun ops Lbuf.make = some lb) :
+    (modified lb).1 = false ↔ (rrun ops {}).mark = some (rrun ops {}).z.past.length := by
+  obtain ⟨d, hi, _⟩ := reached_of_srun ops hg lb hr
+  exact hi.clean_iff
+
+/-- after a partial write the flag stays dirty until the next whole write -/
+theorem dirty_after_partial_write (pre mid : List SOp) (hg : SGood (pre ++ [.partialWrite] ++ mid))
+    (hmid : ∀ op ∈ mid, isSaving op = false) (lb : Lb)
+    (hr : srun (pre ++ [.partialWrite] ++ mid) Lbuf.make = some lb) : (modified lb).1 = true := by
+  cases hm : (modified lb).1 with
+  | true => rfl
+  | false =>
+    have h1 := (dirty_iff_position _ hg lb hr).1 hm
+    rw [rrun_append, rrun_append] at h1
+    rw [rrun_mark_none mid _ rfl hmid] at h1
+    cases h1
+
+/-! ### 2. after a whole write the flag is clean -/
+
+theorem clean_after_whole_write (ops : List SOp) (hg : SGood ops) (lb : Lb)
+    (hr : srun (ops ++ [.saved]) Lbuf.make = some lb) : (modified lb).1 = false := by
+  have hg' : SGood (ops ++ [.saved]) := by
+    intro op ho
+    simp only [List.mem_append, List.mem_singleton] at ho
+    rcases ho with ho | rfl
+    · exact hg op ho
+    · trivial
+  rw [dirty_iff_position _ hg' lb hr, rrun_append]
+  rfl
+
+theorem clean_after_reload (ops : List SOp) (hg : SGood ops) (lb : Lb)
+    (hr : srun (ops ++ [.savedClear]) Lbuf.make = some lb) : (modified lb).1 = false := by
+  have hg' : SGood (ops ++ [.savedClear]) := by
+    intro op ho
+    simp only [List.mem_append, List.mem_singleton] at ho
+    rcases ho with ho | rfl
+    · exact hg op ho
+    · trivial
+  rw [dirty_iff_position _ hg' lb hr, rrun_append]
+  rfl
+
+/-! ### 3. undo / redo back to the saved text -/
+
+theorem sgood_append {a b : List SOp} (ha : SGood a) (hb : SGood b) : SGood (a ++ b) := by
+  intro op ho
+  rcases List.mem_append.1 ho with ho | ho
+  · exact ha op ho
+  · exact hb op ho
+
+theorem sgood_cmds (css : List (List Splice)) (h : ∀ ss ∈ css, ∀ s ∈ ss, s.1 ≤ s.2.1) :
+    SGood (css.map SOp.cmd) := by
+  intro op ho
+  obtain ⟨ss, hss, rfl⟩ := List.mem_map.1 ho
+  exact h ss hss
+
+theorem sgood_replicate (j : Nat) (op : SOp) (h : SGoodOp op) : SGood (List.replicate j op) := by
+  intro o ho
+  rw [(List.mem_replicate.1 ho).2]; exact h
+
+/-- after a whole write, `n` modifying commands followed by `j ≤ n` undos: the flag is clean exactly
+    when `j = n`, and then the text is the saved text again -/
+theorem clean_after_undo_to_saved (pre : List SOp) (hg : SGood pre) (css : List (List Splice))
+    (hcss : ∀ ss ∈ css, ∀ s ∈ ss, s.1 ≤ s.2.1) (lb0 : Lb)
+    (h0 : srun (pre ++ [.saved]) Lbuf.make = some lb0) (hlog : AllLog lb0.lines css)
+    (j : Nat) (hj : j ≤ css.length) :
+    ∃ lb, srun (pre ++ [.saved] ++ css.map SOp.cmd ++ List.replicate j .undo) Lbuf.make = some lb ∧
+      ((modified lb).1 = false ↔ j = css.length) ∧ (j = css.length → lb.lines = lb0.lines) := by
+  have hg0 : SGood (pre ++ [.saved]) := sgood_append hg (by intro o ho; simp at ho; subst ho; trivial)
+  have hgall : SGood (pre ++ [.saved] ++ css.map SOp.cmd ++ List.replicate j .undo) :=
+    sgood_append (sgood_append hg0 (sgood_cmds css hcss)) (sgood_replicate j _ trivial)
+  obtain ⟨lb, hr⟩ := no_trap _ hgall
+  obtain ⟨d0, hi0, _⟩ := reached_of_srun _ hg0 lb0 h0
+  obtain ⟨d, hi, _⟩ := reached_of_srun _ hgall lb hr
+  rw [rrun_append, rrun_append] at hi
+  generalize hr0 : rrun (pre ++ [.saved]) {} = r0 at hi hi0
+  have hmark0 : r0.mark = some r0.z.past.length := by
+    rw [← hr0, rrun_append]; rfl
+  obtain ⟨a1, a2, ts, a3, a4⟩ := rrun_cmds css r0 _ hi0.1 hmark0 (Nat.le_refl _)
+    (by rw [← hi0.lines]; exact hlog)
+  generalize rrun (css.map SOp.cmd) r0 = r1 at hi a1 a2 a4
+  have hlen1 : r1.z.past.length = css.length + r0.z.past.length := by
+    have := congrArg List.length a4
+    simp only [stack, List.length_cons, List.length_append] at this
+    omega
+  obtain ⟨_, b2, b3⟩ := rrun_undos j r1 a1 (by omega)
+  generalize rrun (List.replicate j SOp.undo) r1 = r2 at hi b2 b3
+  have hlen2 : r2.z.past.length = css.length + r0.z.past.length - j := by
+    have := congrArg List.length b3
+    simp only [stack, List.length_cons, List.length_drop] at this
+    omega
+  refine ⟨lb, hr, ?_, ?_⟩
+  · rw [hi.clean_iff, b2, a2, hlen2]
+    simp only [Option.some.injEq]
+    omega
+  · intro hje
+    rw [hi.lines, hi0.lines]
+    rw [a4, hje, ← a3, List.drop_left] at b3
+    simp only [stack, List.cons.injEq] at b3
+    exact b3.1
+
+/-- after a whole write, `j` successful undos (there are at least `j` undoable commands) followed by
+    `j` redos: the flag is clean again and the text is the saved text -/
+theorem clean_after_redo_to_saved (pre : List SOp) (hg : SGood pre) (lb0 : Lb)
+    (h0 : srun (pre ++ [.saved]) Lbuf.make = some lb0) (j : Nat)
+    (hj : j ≤ (rrun pre {}).z.past.length) :
+    ∃ lb, srun (pre ++ [.saved] ++ (List.replicate j .undo ++ List.replicate j .redo)) Lbuf.make = some lb ∧
+      (modified lb).1 = false ∧ lb.lines = lb0.lines := by
+  have hg0 : SGood (pre ++ [.saved]) := sgood_append hg (by intro o ho; simp at ho; subst ho; trivial)
+  have hgall : SGood (pre ++ [.saved] ++ (List.replicate j .undo ++ List.replicate j .redo)) :=
+    sgood_append hg0 (sgood_append (sgood_replicate j _ trivial) (sgood_replicate j _ trivial))
+  obtain ⟨lb, hr⟩ := no_trap _ hgall
+  obtain ⟨d0, hi0, _⟩ := reached_of_srun _ hg0 lb0 h0
+  obtain ⟨d, hi, _⟩ := reached_of_srun _ hgall lb hr
+  rw [rrun_append] at hi
+  have hz0 : (rrun (pre ++ [.saved]) {}).z = (rrun pre {}).z := by rw [rrun_append]; rfl
+  rw [rrun_undo_redo j _ hi0.1 (by rw [hz0]; exact hj)] at hi
+  refine ⟨lb, hr, ?_, by rw [hi.lines, hi0.lines]⟩
+  rw [hi.clean_iff, rrun_append]
+  rfl
+
+/-! ### the history language of C04 embeds -/
+
+def ofHOp : HOp → SOp
+  | .cmd ss => .cmd ss
+  | .undo => .undo
+  | .redo => .redo
+
+theorem sstep_ofHOp (lb : Lb) (op : HOp) : sstep lb (ofHOp op) = (C04.step lb op).map (·.2) := by
+  cases op <;> simp [sstep, ofHOp, C04.step, Option.map_map, Function.comp_def]
+
+/-! ### non-vacuity: concrete histories -/
+
+def ins (c : Nat) : SOp := .cmd [(0, 0, some [c, 10])]
+
+/-- edit, whole write, edit, undo: clean -/
+example : (srun [ins 97, .saved, ins 98, .undo] Lbuf.make).map (fun lb => ((modified lb).1, lb.lines)) =
+    some (false, [[97, 10]]) := by decide
+
+/-- edit, whole write, edit: dirty; the ghost file holds the saved text -/
+example : (srun [ins 97, .saved, ins 98] Lbuf.make).map (fun lb => ((modified lb).1, lb.lines)) =
+    some (true, [[98, 10], [97, 10]]) ∧ disk [ins 97, .saved, ins 98] [] = some [[97, 10]] := by decide
+
+/-- edit, partial write, undo: dirty (although the text is the loaded text again) -/
+example : (srun [ins 97, .partialWrite, .undo] Lbuf.make).map (fun lb => ((modified lb).1, lb.lines)) =
+    some (true, []) := by decide
+
+/-- whole write, undo, a different edit at the same depth: dirty (the saved text was cut off) -/
+example : (srun [ins 97, .saved, .undo, ins 98, .query] Lbuf.make).map (fun lb => ((modified lb).1, lb.lines)) =
+    some (true, [[98, 10]]) ∧ (rrun [ins 97, .saved, .undo, ins 98, .query] {}).mark = none := by decide
+
+/-- whole write, undo, redo: clean -/
+example : (srun [ins 97, ins 98, .saved, .undo, .undo, .redo, .redo] Lbuf.make).map (fun lb => (modified lb).1) =
+    some false := by decide
+
+/-- reload (history dropped), edit, undo: clean -/
+example : (srun [ins 97, .savedClear, ins 98, .undo, .undo] Lbuf.make).map (fun lb => ((modified lb).1, lb.lines)) =
+    some (false, [[97, 10]]) := by decide
+
+/-! ## Part B: the ex layer -/
+namespace Ex
+open Neatvi.Ex Neatvi.Lemmas.C02Ex
+
+export Neatvi.Lemmas.C02Ex (bumpAt showOpt Keeps bufKey writeFinish)
+
+/-! ### 4. the guard `bufs_modified` -/
+
+/-- a dirty current buffer, no autowrite: `bufs_modified` refuses, and the state differs from the
+    old one only by the bumped sequence counter of slot 0 and the shown message.
+    (`bufs_modified` itself does not look at `writeany`; its callers do.) -/
+theorem guard_refuses (ed : Ed) (b : Buf) (msg : Option Bytes)
+    (hb : ed.bufs.getD 0 none = some b) (hd : (modified b.lb).1 = true) (haw : ed.xaw = 0) :
+    ∃ ed', bufsModified ed 0 msg = some (true, ed') ∧
+      ed' = showOpt (bumpAt ed 0 b) msg ∧
+      ed'.bufs.length = ed.bufs.length ∧
+      (∀ i, i ≠ 0 → ed'.bufs.getD i none = ed.bufs.getD i none) ∧
+      ed'.bufs.getD 0 none = some { b with lb := (modified b.lb).2 } ∧
+      ed'.files = ed.files ∧ ed'.xquit = ed.xquit := by
+  obtain ⟨hlt, _⟩ := getD_some hb
+  refine ⟨_, guard_refuses_at ed 0 b msg hb hd haw, rfl, ?_, ?_, ?_, ?_, ?_⟩ <;>
+    cases msg <;> simp only [showOpt, Ed.show, bumpAt, List.length_set]
+  · intro i hi; exact getD_set_ne _ _ _ _ (Ne.symm hi)
+  · intro i hi; exact getD_set_ne _ _ _ _ (Ne.symm hi)
+  · exact getD_set_self _ _ _ hlt
+  · exact getD_set_self _ _ _ hlt
+
+/-- any slot: dirty ⇒ refused, with exactly the bump and the message as effect -/
+theorem guard_refuses_any (ed : Ed) (idx : Nat) (b : Buf) (msg : Option Bytes)
+    (hb : ed.bufs.getD idx none = some b) (hd : (modified b.lb).1 = true) (haw : ed.xaw = 0) :
+    bufsModified ed idx msg = some (true, showOpt (bumpAt ed idx b) msg) :=
+  guard_refuses_at ed idx b msg hb hd haw
+
+/-- any slot: clean ⇒ allowed, with exactly the bump as effect (whatever `autowrite` says) -/
+theorem guard_allows_when_clean (ed : Ed) (idx : Nat) (b : Buf) (msg : Option Bytes)
+    (hb : ed.bufs.getD idx none = some b) (hd : (modified b.lb).1 = false) :
+    bufsModified ed idx msg = some (false, bumpAt ed idx b) :=
+  guard_passes_at ed idx b msg hb hd
+
+/-! ### 5. `:q`, `:e`, `:b` -/
+
+/-- `:q`-like commands (no `w`/`x` prefix, no `!`, no `a`), no autowrite: if ANY open buffer is dirty
+    the command returns without setting `xquit`; the files are untouched and the buffer table holds
+    the same (path, text) pairs as before, up to order (`bufs_switch` brings the dirty one in front) -/
+theorem quit_refused_when_dirty (f : Nat) (ed : Ed) (loc cmd arg : Bytes) (txt : Option Bytes)
+    (hw : cmd.headD 0 ≠ 119) (hx : cmd.headD 0 ≠ 120)
+    (hbang : hasBang cmd = false) (hall : cmd.contains 97 = false) (haw : ed.xaw = 0)
+    (j : Nat) (b : Buf) (hb : ed.bufs.getD j none = some b) (hd : (modified b.lb).1 = true) :
+    ∃ ed', runCmd (f + 1) ed "ec_quit" loc cmd arg txt = some (0, ed') ∧ Keeps ed ed' := by
+  obtain ⟨hlt, _⟩ := getD_some hb
+  obtain ⟨ed', he, hk⟩ := each_refuses cmd hbang (ed.bufs.length + 1) 0 ed haw
+    ⟨j, b, Nat.zero_le _, by omega, hb, hd⟩
+  refine ⟨ed', ?_, hk⟩
+  rw [runCmd_quit]
+  have c1 : (cmd.headD 0 == 119 || cmd.headD 0 == 120) = false := by
+    rw [Bool.or_eq_false_iff]; exact ⟨beq_eq_false_iff_ne.2 hw, beq_eq_false_iff_ne.2 hx⟩
+  simp only [c1, Bool.false_eq_true, if_false, hall, he]
+  rfl
+
+/-- the converse: if every open buffer is clean, `:q`-like commands set `xquit` (and keep everything) -/
+theorem quit_allowed_when_clean (f : Nat) (ed : Ed) (loc cmd arg : Bytes) (txt : Option Bytes)
+    (hw : cmd.headD 0 ≠ 119) (hx : cmd.headD 0 ≠ 120)
+    (hbang : hasBang cmd = false) (hall : cmd.contains 97 = false)
+    (hcl : ∀ j b, ed.bufs.getD j none = some b → (modified b.lb).1 = false) :
+    ∃ ed', runCmd (f + 1) ed "ec_quit" loc cmd arg txt = some (0, { ed' with xquit := true }) ∧ Keeps ed ed' := by
+  obtain ⟨ed', he, hk⟩ := each_passes cmd hbang (ed.bufs.length + 1) 0 ed hcl
+  refine ⟨ed', ?_, hk⟩
+  rw [runCmd_quit]
+  have c1 : (cmd.headD 0 == 119 || cmd.headD 0 == 120) = false := by
+    rw [Bool.or_eq_false_iff]; exact ⟨beq_eq_false_iff_ne.2 hw, beq_eq_false_iff_ne.2 hx⟩
+  simp only [c1, Bool.false_eq_true, if_false, hall, he]
+  rfl
+
+/-- the instance `:q` -/
+theorem q_refused_when_dirty (f : Nat) (ed : Ed) (loc arg : Bytes) (txt : Option Bytes)
+    (haw : ed.xaw = 0) (hq : ed.xquit = false)
+    (j : Nat) (b : Buf) (hb : ed.bufs.getD j none = some b) (hd : (modified b.lb).1 = true) :
+    ∃ ed', runCmd (f + 1) ed "ec_quit" loc (strOf "q") arg txt = some (0, ed') ∧ ed'.xquit = false ∧
+      ed'.files = ed.files ∧ (ed'.bufs.map bufKey).Perm (ed.bufs.map bufKey) := by
+  rw [strOf_q]
+  obtain ⟨ed', h1, h2⟩ := quit_refused_when_dirty f ed loc [113] arg txt (by decide) (by decide)
+    (by decide) (by decide) haw j b hb hd
+  exact ⟨ed', h1, by rw [h2.xquit, hq], h2.files, h2.bufs⟩
+
+/-- `:e` and friends without `!`, no autowrite, no writeany, dirty current buffer: return code 1, and
+    the state differs only by the bumped counter of slot 0 and the message -/
+theorem edit_refused_when_dirty (f : Nat) (ed : Ed) (cmd arg : Bytes) (b : Buf)
+    (hb : ed.bufs.getD 0 none = some b) (hd : (modified b.lb).1 = true)
+    (haw : ed.xaw = 0) (hwa : ed.xwa = 0) (hbang : hasBang cmd = false) :
+    ecEdit (f + 1) ed cmd arg = some (1, (bumpAt ed 0 b).show (strOf "buffer modified")) := by
+  have hcur : ed.cur = some b := hb
+  rw [ecEdit.eq_2]
+  simp only [hbang, hcur, hwa, Bool.not_false, Option.isSome_some, Bool.and_self, beq_self_eq_true, if_true,
+    guard_refuses_at ed 0 b _ hb hd haw, showOpt]
+
+/-- what the refused state looks like -/
+theorem refused_state (ed : Ed) (b : Buf) (m : Bytes) (hb : ed.bufs.getD 0 none = some b) :
+    ((bumpAt ed 0 b).show m).cur = some { b with lb := (modified b.lb).2 } ∧
+    ((bumpAt ed 0 b).show m).files = ed.files ∧
+    (∀ i, i ≠ 0 → ((bumpAt ed 0 b).show m).bufs.getD i none = ed.bufs.getD i none) := by
+  obtain ⟨hlt, _⟩ := getD_some hb
+  refine ⟨getD_set_self _ _ _ hlt, rfl, ?_⟩
+  intro i hi; exact getD_set_ne _ _ _ _ (Ne.symm hi)
+
+/-- the instance `:e` through the dispatcher, in the words of the property -/
+theorem e_refused_when_dirty (f : Nat) (ed : Ed) (loc arg : Bytes) (txt : Option Bytes) (b : Buf)
+    (hb : ed.bufs.getD 0 none = some b) (hd : (modified b.lb).1 = true)
+    (haw : ed.xaw = 0) (hwa : ed.xwa = 0) :
+    ∃ ed' b', runCmd (f + 2) ed "ec_edit" loc (strOf "e") arg txt = some (1, ed') ∧
+      ed'.cur = some b' ∧ b'.path = b.path ∧ b'.lb.lines = b.lb.lines ∧ ed'.files = ed.files := by
+  rw [runCmd_edit, strOf_e, edit_refused_when_dirty f ed [101] arg b hb hd haw hwa (by decide)]
+  obtain ⟨h1, h2, _⟩ := refused_state ed b (strOf "buffer modified") hb
+  exact ⟨_, _, rfl, h1, rfl, rfl, h2⟩
+
+/-- the switching branch of `:b` (an argument that is not `!` or `~`), without `!`, no autowrite, no
+    writeany, dirty current buffer: return code 1 — either refused by the guard or "no such
+    buffer" — and nothing but the counter of slot 0 and the message changes -/
+theorem buffer_refused_when_dirty (f : Nat) (ed : Ed) (loc cmd arg : Bytes) (txt : Option Bytes) (b : Buf)
+    (hb : ed.bufs.getD 0 none = some b) (hd : (modified b.lb).1 = true)
+    (haw : ed.xaw = 0) (hwa : ed.xwa = 0) (hbang : hasBang cmd = false)
+    (harg : arg.isEmpty = false) (h33 : arg.headD 0 ≠ 33) (h126 : arg.headD 0 ≠ 126) :
+    runCmd (f + 1) ed "ec_buffer" loc cmd arg txt = some (1, (bumpAt ed 0 b).show (strOf "buffer modified")) ∨
+    runCmd (f + 1) ed "ec_buffer" loc cmd arg txt = some (1, ed.show (strOf "no such buffer")) := by
+  rw [runCmd.eq_2]
+  simp only [String.reduceBEq, Bool.false_eq_true, if_false, if_true, Bool.or_self, harg]
+  have c33 : (arg.headD 0 == 33) = false := beq_eq_false_iff_ne.2 h33
+  have c126 : (arg.headD 0 == 126) = false := beq_eq_false_iff_ne.2 h126
+  simp only [c33, c126, Bool.false_eq_true, if_false]
+  simp only [hbang, hwa, Bool.not_false, Bool.and_self, beq_self_eq_true, if_true,
+    guard_refuses_at ed 0 b _ hb hd haw, showOpt]
+  exact ite_or _ _ _
+
+/-- in the words of the property: return code 1, same current path and text, no file changed -/
+theorem b_refused_when_dirty (f : Nat) (ed : Ed) (loc cmd arg : Bytes) (txt : Option Bytes) (b : Buf)
+    (hb : ed.bufs.getD 0 none = some b) (hd : (modified b.lb).1 = true)
+    (haw : ed.xaw = 0) (hwa : ed.xwa = 0) (hbang : hasBang cmd = false)
+    (harg : arg.isEmpty = false) (h33 : arg.headD 0 ≠ 33) (h126 : arg.headD 0 ≠ 126) :
+    ∃ ed' b', runCmd (f + 1) ed "ec_buffer" loc cmd arg txt = some (1, ed') ∧
+      ed'.cur = some b' ∧ b'.path = b.path ∧ b'.lb.lines = b.lb.lines ∧ ed'.files = ed.files := by
+  rcases buffer_refused_when_dirty f ed loc cmd arg txt b hb hd haw hwa hbang harg h33 h126 with h | h
+  · obtain ⟨h1, h2, _⟩ := refused_state ed b (strOf "buffer modified") hb
+    exact ⟨_, _, h, h1, rfl, rfl, h2⟩
+  · exact ⟨_, b, h, hb, rfl, rfl, rfl⟩
+
+/-! ### 6. `:w` marks the buffer clean only if the whole buffer went to its own file -/
+
+/-- Name the intermediate results of `ec_write` up to a successful `lbuf_save` of lines `[b, e)` of
+    the current buffer `cur` to `path`.  Then `ec_write` returns 0 and the new current buffer `c5` has
+    * `lbuf_saved(lb, 0)` + bump applied (so the flag is clean) if `path` is the buffer's own path
+      (or the buffer had none and adopts it) and the range is the whole buffer;
+    * `lbuf_unsaved(lb)` applied (so the flag is dirty) if it is the own path but a proper part;
+    * its `lb` untouched if `path` is another file. -/
+theorem write_marks_clean_only_if_whole (ed ed1 ed2 ed3 ed4 : Ed) (loc cmd arg path : Bytes)
+    (b0 e0 b e : Int) (cur : Buf)
+    (hpr : (if !arg.isEmpty then pathExpand ed arg true else some (ed.cur.map (·.path), ed)) = some (some path, ed1))
+    (hx : (if cmd.headD 0 == 120 then some (ed1.modifiedAt 0) else some (true, ed1) : Option (Bool × Ed)) = some (true, ed2))
+    (hr : exRegion ed2 loc = some ((0, b0, e0), ed3))
+    (hc : ed3.cur = some cur) (hsh : path.headD 0 ≠ 33)
+    (hbe : (if loc.isEmpty then ((0 : Int), ed3.len) else (b0, e0)) = (b, e))
+    (hs : lbufSave ed3 cur.lb b.toNat e path (hasBang cmd) (if cur.path == path then cur.mtime else 0) = some (none, ed4)) :
+    ∃ ed5 c5, ecWrite ed loc cmd arg = some (0, ed5) ∧ ed5.cur = some c5 ∧ ed5.files = ed4.files ∧
+      ed4.bufs = ed3.bufs ∧
+      c5.path = (if cur.path.isEmpty then path else cur.path) ∧
+      ((cur.path = path ∨ cur.path = []) → (b = 0 ∧ e = ed3.len) →
+        c5.lb = (modified (savedCore cur.lb false)).2 ∧ (modified c5.lb).1 = false) ∧
+      ((cur.path = path ∨ cur.path = []) → ¬ (b = 0 ∧ e = ed3.len) →
+        c5.lb = unsavedMark cur.lb ∧ (modified c5.lb).1 = true) ∧
+      (¬ (cur.path = path ∨ cur.path = []) → c5.lb = cur.lb) := by
+  have hb4 := lbufSave_bufs _ _ _ _ _ _ _ _ _ hs
+  have hc4 : ed4.cur = some cur := by rw [cur_congr hb4, hc]
+  rw [ecWrite_unfold ed ed1 ed2 ed3 ed4 loc cmd arg path b0 e0 b e cur hpr hx hr hc hsh hbe hs]
+  generalize hm : ([34] ++ path ++ strOf "\"  [=" ++ intStr (e - b) ++ strOf "]  [w]") = m
+  have hlen : (ed4.show m).len = ed3.len := len_congr (ed := ed3) (ed' := ed4.show m) hb4
+  obtain ⟨ed5, c5, h1, h2, h3, h4, h5, h6, h7⟩ := writeFinish_spec (ed4.show m) cur path b e hc4
+  rw [hlen] at h5 h6
+  refine ⟨ed5, c5, h1, h2, h3, hb4, h4, ?_, h6, h7⟩
+  intro ho hw
+  have := h5 ho hw
+  exact ⟨this, by rw [this]; exact saved_then_clean _⟩
+
+/-- ... and the buffer `cur` that `lbuf_save` sees in the theorem above is the editor's initial
+    current buffer `c0` (with its counter bumped when the command is `:x`, which tests the flag
+    first): path expansion and address evaluation do not touch the buffer table -/
+theorem write_saves_initial_buffer (ed ed1 ed2 ed3 : Ed) (loc cmd arg : Bytes) (path : Option Bytes)
+    (r : Nat × Int × Int) (c0 : Buf)
+    (hpr : (if !arg.isEmpty then pathExpand ed arg true else some (ed.cur.map (·.path), ed)) = some (path, ed1))
+    (hx : (if cmd.headD 0 == 120 then some (ed1.modifiedAt 0) else some (true, ed1) : Option (Bool × Ed)) = some (true, ed2))
+    (hr : exRegion ed2 loc = some (r, ed3)) (h0 : ed.cur = some c0) :
+    ed3.cur = some (if cmd.headD 0 == 120 then { c0 with lb := (modified c0.lb).2 } else c0) :=
+  write_current_buffer ed ed1 ed2 ed3 loc cmd arg path r c0 hpr hx hr h0
+
+/-! ### what is NOT proved: the bridge between Part A and Part B
+
+Part A is about buffers driven through the lbuf API by the operations `SOp`; Part B is about what the
+ex commands do given the flag of the buffers in the table.  That every buffer of a reachable editor
+state is one Part A speaks about (the ex layer drives `lbuf.c` only through `lbuf_edit` — also via
+`lbuf_rd` —, `lbuf_undo`, `lbuf_redo`, `lbuf_modified`, `lbuf_saved`, `lbuf_unsaved`, and mark / glob
+operations that do not touch the history) is stated here and left open, together with the relation
+between the ghost file text of Part A and the bytes `lbuf_save` puts in `Ed.files`. -/
+
+/-- the `ex()` loop: `n` rounds (stops early when the input is exhausted) -/
+def exRun : Nat → Ed → Option Ed
+  | 0, ed => some ed
+  | n + 1, ed =>
+    if ed.input.isEmpty then some ed else
+    match exStep ed with
+    | none => none
+    | some (_, ed') => exRun n ed'
+
+/-- OPEN (not proved): every buffer of every reachable editor state satisfies the invariant of
+    Part A, so that `clean_sound` / `dirty_iff_position` apply to it -/
+def editor_buffers_satisfy_invariant_full : Prop :=
+  ∀ (ed0 : Ed) (files : List Bytes) (n : Nat) (rc : Int) (ed1 ed : Ed),
+    ed0.bufs = List.replicate Gen.NBUFS none → exInit ed0 files = some (rc, ed1) → exRun n ed1 = some ed →
+    ∀ i b, ed.bufs.getD i none = some b → ∃ r d, SInv b.lb r d
+
+/-- the proved part: the invariant holds for a fresh buffer, is preserved by every lbuf-level
+    operation the ex layer uses, and yields the characterisation and the soundness of the flag -/
+theorem editor_buffers_satisfy_invariant_partial :
+    SInv Lbuf.make {} (some []) ∧
+    (∀ lb r d op, SInv lb r d → SGoodOp op →
+      ∃ lb', sstep lb op = some lb' ∧ SInv lb' (rstep r op) (diskStep lb d op)) ∧
+    (∀ lb r d, SInv lb r d →
+      ((modified lb).1 = false ↔ r.mark = some r.z.past.length) ∧
+      ((modified lb).1 = false → d = some lb.lines)) :=
+  ⟨sinv_make, fun _ _ _ op h hg => sstep_inv h op hg, fun _ _ _ h => ⟨h.clean_iff, h.clean_text⟩⟩
+
+/-! ### non-vacuity: the hypotheses of Part B are met by buffers produced by Part A's histories -/
+
+/-- an editor whose only buffer is `lb`, file name `f` -/
+def edOf (lb : Lb) : Ed := { bufs := [some { path := [102], lb := lb }, none] }
+
+/-- edit, whole write, edit: `:q` is refused -/
+example : ∃ lb, srun [ins 97, .saved, ins 98] Lbuf.make = some lb ∧
+    ∃ ed', runCmd 2 (edOf lb) "ec_quit" [] (strOf "q") [] none = some (0, ed') ∧ ed'.xquit = false := by
+  have hdirty : (srun [ins 97, .saved, ins 98] Lbuf.make).map (fun lb => (modified lb).1) = some true := by decide
+  cases h : srun [ins 97, .saved, ins 98] Lbuf.make with
+  | none => rw [h] at hdirty; cases hdirty
+  | some lb =>
+    rw [h] at hdirty
+    simp only [Option.map_some, Option.some.injEq] at hdirty
+    obtain ⟨ed', h1, h2, _⟩ := q_refused_when_dirty 1 (edOf lb) [] [] none rfl rfl 0 _ rfl hdirty
+    exact ⟨lb, rfl, ed', h1, h2⟩
+
+/-- edit, whole write, edit, undo: `:q` quits -/
+example : ∃ lb, srun [ins 97, .saved, ins 98, .undo] Lbuf.make = some lb ∧
+    ∃ ed', runCmd 2 (edOf lb) "ec_quit" [] (strOf "q") [] none = some (0, ed') ∧ ed'.xquit = true := by
+  have hclean : (srun [ins 97, .saved, ins 98, .undo] Lbuf.make).map (fun lb => (modified lb).1) = some false := by
+    decide
+  cases h : srun [ins 97, .saved, ins 98, .undo] Lbuf.make with
+  | none => rw [h] at hclean; cases hclean
+  | some lb =>
+    rw [h] at hclean
+    simp only [Option.map_some, Option.some.injEq] at hclean
+    obtain ⟨ed', h1, _⟩ := quit_allowed_when_clean 1 (edOf lb) [] (strOf "q") [] none
+      (by rw [strOf_q]; decide) (by rw [strOf_q]; decide) (by rw [strOf_q]; decide) (by rw [strOf_q]; decide)
+      (by
+        intro j b hj
+        match j, hj with
+        | 0, hj =>
+          have hj' : some ({ path := [102], lb := lb } : Buf) = some b := hj
+          simp only [Option.some.injEq] at hj'; subst hj'; exact hclean
+        | 1, hj => have hj' : (none : Option Buf) = some b := hj; cases hj'
+        | (n + 2), hj => have hj' : (none : Option Buf) = some b := hj; cases hj')
+    exact ⟨lb, rfl, _, h1, rfl⟩
+
+end Ex
+
 end Neatvi.Props.C02
